@@ -143,6 +143,10 @@ type disconnectHandler struct {
 }
 
 func (d *disconnectHandler) handleDisconnect() {
+	// Read before taking d.mu: Stop takes d.mu while holding the election
+	// mutex, so the election mutex is never taken under d.mu.
+	ctx := d.election.electionContext()
+
 	d.mu.Lock()
 	defer d.mu.Unlock()
 
@@ -162,7 +166,7 @@ func (d *disconnectHandler) handleDisconnect() {
 
 	log := d.election.getLogger()
 	log.Warn("connection_disconnected",
-		append(d.election.logWithContext(d.election.ctx),
+		append(d.election.logWithContext(ctx),
 			zap.Duration("grace_period", gracePeriod),
 		)...,
 	)
@@ -198,7 +202,7 @@ func (d *disconnectHandler) handleGracePeriodExpired() {
 			// Reconnected, don't demote
 			log := d.election.getLogger()
 			log.Info("connection_reconnected_before_grace_period",
-				d.election.logWithContext(d.election.ctx)...,
+				d.election.logWithContext(d.election.electionContext())...,
 			)
 			return
 		}
@@ -209,7 +213,7 @@ func (d *disconnectHandler) handleGracePeriodExpired() {
 		log := d.election.getLogger()
 		disconnectedDuration := time.Since(disconnectedAt)
 		log.Error("demoting_due_to_connection_loss",
-			append(d.election.logWithContext(d.election.ctx),
+			append(d.election.logWithContext(d.election.electionContext()),
 				zap.Duration("disconnected_duration", disconnectedDuration),
 			)...,
 		)
@@ -225,7 +229,7 @@ func (d *disconnectHandler) handleGracePeriodExpired() {
 
 		if onDemote != nil {
 			log.Info("leader_demoted",
-				append(d.election.logWithContext(d.election.ctx),
+				append(d.election.logWithContext(d.election.electionContext()),
 					zap.String("reason", "connection_loss"),
 				)...,
 			)
@@ -340,7 +344,7 @@ func (e *kvElection) handleReconnectVerificationFailed(err error) {
 	if e.isLeader.Load() {
 		log := e.getLogger()
 		log.Error("demoting_due_to_reconnect_verification_failure",
-			append(e.logWithContext(e.ctx),
+			append(e.logWithContext(e.electionContext()),
 				zap.Error(err),
 				zap.String("error_type", classifyErrorType(err)),
 			)...,
@@ -357,7 +361,7 @@ func (e *kvElection) handleReconnectVerificationFailed(err error) {
 
 		if onDemote != nil {
 			log.Info("leader_demoted",
-				append(e.logWithContext(e.ctx),
+				append(e.logWithContext(e.electionContext()),
 					zap.String("reason", "reconnect_verification_failed"),
 				)...,
 			)
